@@ -48,6 +48,19 @@ class G:
         if mode == "zeros":
             return np.array([0.0 if r.random() < 0.3 else r.randrange(1, 25) / 8.0
                              for _ in range(N)])
+        if mode in ("scales", "tiny", "huge"):
+            # dyadic weights times powers of two: still exact, but of very different
+            # magnitudes - a cell can hold 99.9999 % of its base ("scales"), or every count
+            # and base can be far below 1e-8 ("tiny") or in the millions ("huge")
+            out = []
+            for _ in range(N):
+                k = r.randrange(1, 25) / 8.0
+                if mode == "scales":
+                    e = r.choice([17, 17, 17, 0, -20, -20])
+                else:
+                    e = -40 if mode == "tiny" else 20
+                out.append(0.0 if r.random() < 0.05 else k * 2.0 ** e)
+            return np.array(out)
         if mode == "float":
             # not representable in binary: sums taken in different orders differ in the last
             # bits, which is what real survey weights do (monitors compare with a tolerance)
